@@ -227,6 +227,8 @@ type ExploreOpts struct {
 	Deadline time.Time
 	Seed     int64
 	Alloc    int
+	// per-query solver time-out of this exploration (0: the program's default)
+	TimeoutMS int
 }
 
 type FuncStat struct {
@@ -267,6 +269,11 @@ type workItem []decision
 
 // Explore runs the bounded symbolic exploration of one harness entry.
 func (p *Program) Explore(o ExploreOpts) (*Report, error) {
+	if o.TimeoutMS > 0 {
+		p.cfg.TimeoutMS = o.TimeoutMS
+	} else {
+		p.cfg.TimeoutMS = 0
+	}
 	t0 := time.Now()
 	nw := p.cfg.Workers
 	if nw <= 0 {
